@@ -5,5 +5,6 @@ CONSTANTS
   PipeCap = 1
   CtxAwareSend = TRUE
   Flood = FALSE
+  AuditMetrics = FALSE
   Http = FALSE
 CHECK_DEADLOCK FALSE
